@@ -1396,6 +1396,8 @@ func main() {
 			decisionFunc("driver/network/sendconfigs.go", "Driver.SendConfigs"))
 		fmt.Fprintf(&sw, "(* driver/network/acquirepriv.go Driver.AcquirePriv *)\nDefinition acquire_priv_code : list dstmt :=\n  %s.\n",
 			decisionFunc("driver/network/acquirepriv.go", "Driver.AcquirePriv"))
+		fmt.Fprintf(&sw, "(* driver/network/acquirepriv.go Driver.escalate, Driver.deescalate *)\nDefinition escalate_code : list dstmt :=\n  %s.\nDefinition deescalate_code : list dstmt :=\n  %s.\n",
+			decisionFunc("driver/network/acquirepriv.go", "Driver.escalate"), decisionFunc("driver/network/acquirepriv.go", "Driver.deescalate"))
 		// the loops that apply an option list to an object (C19)
 		var ol []string
 		for _, lf := range [][2]string{{"driver/generic/driver.go", "NewDriver"}, {"driver/network/driver.go", "NewDriver"}, {"driver/netconf/driver.go", "NewDriver"},
